@@ -229,7 +229,9 @@ class LoopMixin:
                 o = st.deref(v)
                 if nm in mutated or nm in names:
                     tag = o.tag
-                    if o.items is not None:
+                    if isinstance(hints.get(nm), str) and hints[nm] in SEQ_OF_TAG:
+                        tag = hints[nm]
+                    elif o.items is not None:
                         tag = None
                         for x in o.items:
                             if isinstance(x, Sym):
@@ -331,9 +333,14 @@ class LoopMixin:
         self._elem_facts(elem, s2)
         self.assign(node.target, elem, s2)
         g1 = {g.name: g.step(gk[g.name], elem, k, self.entry_ns) for g in gdefs}
+        from . import spec as S_
+        s2.fact(S_.drain())     # lemma instances requested by the ghost steps belong to every path through the body
         for g in gdefs:         # fold split at k: total == (fold of elements 0..k) (+) rest
             if g.tail is not None:
-                s2.fact(g.tail(g.total(sp, self.entry_ns), g1[g.name]))
+                if g.tail.__code__.co_argcount >= 3:
+                    s2.fact(g.tail(g.total(sp, self.entry_ns), g1[g.name], self.entry_ns))
+                else:
+                    s2.fact(g.tail(g.total(sp, self.entry_ns), g1[g.name]))
         s2.trace.append(f"loop@{node.lineno}:iter")
         breaks, others = [], []
         for s3, oc in self.exec_block(node.body, s2):
@@ -578,6 +585,9 @@ class LoopMixin:
             return self.fold_concrete(kind, items, args[1:], st)
         if isinstance(src, (tuple, list)) and not (src and src[0] in ("range", "zip", "enumerate")):
             return self.fold_concrete(kind, list(src), args[1:], st)
+        if kind == "join" and isinstance(src, Ref) and isinstance(st.deref(src), ListV) and st.deref(src).tag == "char" \
+                and len(args) > 1 and args[1] == "":
+            return Sym("str", st.deref(src).t)          # "".join(list of 1-character strings)
         if not isinstance(src, GenV):
             raise Unsupported(f"{kind} over {src!r}")
         sp = src.src
